@@ -611,7 +611,7 @@ func EVAL(ctx context.Context, ast MalType, env EnvType) (res MalType, e error) 
 }
 
 func first(list MalType) string {
-	if list != nil && Q[List](list) && Q[Symbol](list.(List).Val[0]) {
+	if list != nil && Q[List](list) && len(list.(List).Val) > 0 && Q[Symbol](list.(List).Val[0]) {
 		return list.(List).Val[0].(Symbol).Val
 	}
 	return ""
